@@ -389,3 +389,193 @@ Proof.
   specialize (H2 eq_refl). specialize (H3 eq_refl Hk).
   unfold is_cancelled in H3. apply orb_false_iff in H3 as (_ & H3). apply Nat.leb_gt in H3. lia.
 Qed.
+
+(* ------------------------------------------------------------------ *)
+(* the exception is the interrupt for every program except the kept finding's
+   shape (a closure whose deferred call can cancel while its body can fail) *)
+
+Lemma loop_keeps_cz b :
+  (forall s s' e, eval_chunk None b s = (s', e) -> cz s' = cz s) ->
+  forall k s s' e, loopf None b k s = (s', e) -> cz s' = cz s.
+Proof.
+  intros Hb. induction k as [|k IH]; intros s s' e H; cbn [loopf] in H.
+  - now inversion H.
+  - destruct (eval_chunk None b s) as [s1 [x|]] eqn:Eb.
+    + inversion H; subst. eapply Hb; eassumption.
+    + rewrite (IH _ _ _ H). eapply Hb; eassumption.
+Qed.
+
+(* a chunk without verif:cancel leaves the flag alone *)
+Definition K_chunk (c : chunk) : Prop :=
+  cancels c = false -> forall s s' e, eval_chunk None c s = (s', e) -> cz s' = cz s.
+Definition K_form (f : form) : Prop :=
+  cancels_f f = false -> forall s s' e, eval_form None f s = (s', e) -> cz s' = cz s.
+
+Lemma no_cancel_keeps_flag : (forall c, K_chunk c) /\ (forall f, K_form f).
+Proof.
+  apply chunk_form_mutind; unfold K_chunk, K_form.
+  - intros _ s s' e H. cbn in H. destruct (is_cancelled None (tickclk s)); inversion H; reflexivity.
+  - intros f Hf r Hr Hc s s' e H. cbn [cancels] in Hc. apply orb_false_iff in Hc as (Hcf & Hcr).
+    cbn [eval_chunk] in H. destruct (is_cancelled None (tickclk s)); [inversion H; reflexivity|].
+    destruct (eval_form None f _) as [s2 [x|]] eqn:Ef; apply (Hf Hcf) in Ef; cbn in Ef.
+    + inversion H; subst. exact Ef.
+    + rewrite (Hr Hcr _ _ _ H). exact Ef.
+  - intros id _ s s' e H. inversion H; reflexivity.
+  - discriminate.
+  - intros id _ s s' e H. inversion H; reflexivity.
+  - intros b Hb Hc s s' e H. cbn in *. eapply Hb; eassumption.
+  - intros b Hb hc c Hc hf f Hf Hcc s s' e H. cbn [cancels_f] in Hcc.
+    apply orb_false_iff in Hcc as (Hcc & Hcf). apply orb_false_iff in Hcc as (Hcb & Hcc).
+    cbn [eval_form] in H.
+    destruct (eval_chunk None b s) as [s1 e1] eqn:Eb. apply (Hb Hcb) in Eb.
+    assert (H2 : forall s2 e2, (match e1 with
+                              | Some _ => if hc then eval_chunk None c s1 else (s1, e1)
+                              | None => (s1, e1) end) = (s2, e2) -> cz s2 = cz s1).
+    { intros s2 e2 E2. destruct e1 as [x|]; [destruct hc|]; try (now inversion E2).
+      eapply (Hc Hcc); exact E2. }
+    destruct (match e1 with Some _ => if hc then eval_chunk None c s1 else (s1, e1) | None => (s1, e1) end)
+      as [s2 e2]. specialize (H2 s2 e2 eq_refl).
+    destruct hf.
+    + destruct (eval_chunk None f s2) as [s3 e3] eqn:Ef. apply (Hf Hcf) in Ef. inversion H; subst. congruence.
+    + inversion H; subst. congruence.
+  - intros k b Hb Hc s s' e H. cbn in Hc. rewrite eval_each in H.
+    eapply loop_keeps_cz; [|exact H]. intros; eapply (Hb Hc); eassumption.
+  - intros d Hd r Hr Hc s s' e H. cbn [cancels_f] in Hc. apply orb_false_iff in Hc as (Hcd & Hcr).
+    cbn [eval_form] in H. destruct (is_cancelled None (tickclk s)); [inversion H; reflexivity|].
+    destruct (eval_chunk None r _) as [s1 e1] eqn:Er. apply (Hr Hcr) in Er. cbn in Er.
+    destruct (eval_chunk None d s1) as [s2 e2] eqn:Ed. apply (Hd Hcd) in Ed.
+    inversion H; subst. congruence.
+  - intros k b Hb Hc s s' e H. cbn in Hc. rewrite eval_while in H.
+    eapply loop_keeps_cz; [|exact H]. intros; eapply (Hb Hc); eassumption.
+Qed.
+
+Lemma loop_no_fail ko b :
+  (forall s s' i, eval_chunk ko b s <> (s', Some (XFail i))) ->
+  forall k s s' i, loopf ko b k s <> (s', Some (XFail i)).
+Proof.
+  intros Hb. induction k as [|k IH]; intros s s' i H; cbn [loopf] in H; [discriminate|].
+  destruct (eval_chunk ko b s) as [s1 [x|]] eqn:Eb.
+  - inversion H; subst. eapply Hb; exact Eb.
+  - eapply IH; exact H.
+Qed.
+
+(* a chunk without fail never returns a fail exception *)
+Definition N_chunk (c : chunk) : Prop :=
+  fails c = false -> forall ko s s' i, eval_chunk ko c s <> (s', Some (XFail i)).
+Definition N_form (f : form) : Prop :=
+  fails_f f = false -> forall ko s s' i, eval_form ko f s <> (s', Some (XFail i)).
+
+Lemma no_fail_no_fail_exception : (forall c, N_chunk c) /\ (forall f, N_form f).
+Proof.
+  apply chunk_form_mutind; unfold N_chunk, N_form.
+  - intros _ ko s s' i H. cbn in H. destruct (is_cancelled ko (tickclk s)); discriminate.
+  - intros f Hf r Hr Hc ko s s' i H. cbn [fails] in Hc. apply orb_false_iff in Hc as (Hcf & Hcr).
+    cbn [eval_chunk] in H. destruct (is_cancelled ko (tickclk s)); [discriminate|].
+    destruct (eval_form ko f _) as [s2 [x|]] eqn:Ef.
+    + inversion H; subst. eapply (Hf Hcf); exact Ef.
+    + eapply (Hr Hcr); exact H.
+  - intros id _ ko s s' i H. discriminate.
+  - intros _ ko s s' i H. discriminate.
+  - discriminate.
+  - intros b Hb Hc ko s s' i H. cbn in *. eapply Hb; eassumption.
+  - intros b Hb hc c Hc hf f Hf Hcc ko s s' i H. cbn [fails_f] in Hcc.
+    apply orb_false_iff in Hcc as (Hcc & Hcf). apply orb_false_iff in Hcc as (Hcb & Hcc).
+    cbn [eval_form] in H.
+    destruct (eval_chunk ko b s) as [s1 e1] eqn:Eb.
+    assert (H2 : forall s2 j, (match e1 with
+                              | Some _ => if hc then eval_chunk ko c s1 else (s1, e1)
+                              | None => (s1, e1) end) <> (s2, Some (XFail j))).
+    { intros s2 j E2. destruct e1 as [x|]; [destruct hc|]; try discriminate.
+      - eapply (Hc Hcc); exact E2.
+      - inversion E2; subst. eapply (Hb Hcb); exact Eb. }
+    destruct (match e1 with Some _ => if hc then eval_chunk ko c s1 else (s1, e1) | None => (s1, e1) end)
+      as [s2 e2].
+    destruct hf.
+    + destruct (eval_chunk ko f s2) as [s3 [x3|]] eqn:Ef; cbn in H; inversion H; subst.
+      * eapply (Hf Hcf); exact Ef.
+      * eapply H2; reflexivity.
+    + inversion H; subst. eapply H2; reflexivity.
+  - intros k b Hb Hc ko s s' i H. cbn in Hc. rewrite eval_each in H.
+    eapply loop_no_fail; [|exact H]. intros; eapply (Hb Hc).
+  - intros d Hd r Hr Hc ko s s' i H. cbn [fails_f] in Hc. apply orb_false_iff in Hc as (Hcd & Hcr).
+    cbn [eval_form] in H. destruct (is_cancelled ko (tickclk s)); [discriminate|].
+    destruct (eval_chunk ko r _) as [s1 [x1|]] eqn:Er;
+    destruct (eval_chunk ko d s1) as [s2 e2] eqn:Ed; cbn in H; inversion H; subst.
+    + eapply (Hr Hcr); exact Er.
+    + eapply (Hd Hcd); exact Ed.
+  - intros k b Hb Hc ko s s' i H. cbn in Hc. rewrite eval_while in H.
+    eapply loop_no_fail; [|exact H]. intros; eapply (Hb Hc).
+Qed.
+
+Definition F2_chunk (c : chunk) : Prop :=
+  defer_ok c = true -> forall s s' i,
+  eval_chunk None c s = (s', Some (XFail i)) -> cz s' = false.
+Definition F2_form (f : form) : Prop :=
+  defer_ok_f f = true -> forall s s' i, cz s = false ->
+  eval_form None f s = (s', Some (XFail i)) -> cz s' = false.
+
+Lemma fail_means_not_cancelled_ok :
+  (forall c, F2_chunk c) /\ (forall f, F2_form f).
+Proof.
+  apply chunk_form_mutind; unfold F2_chunk, F2_form.
+  - intros _ s s' i H. cbn in H. destruct (is_cancelled None (tickclk s)); discriminate.
+  - intros f Hf r Hr Hd s s' i H. cbn [defer_ok] in Hd. apply andb_true_iff in Hd as (Hdf & Hdr).
+    cbn [eval_chunk] in H.
+    destruct (is_cancelled None (tickclk s)) eqn:Ec; [discriminate|].
+    rewrite cz_none in Ec.
+    destruct (eval_form None f _) as [s2 [x|]] eqn:Ef.
+    + inversion H; subst. eapply (Hf Hdf); [|exact Ef]. exact Ec.
+    + eapply (Hr Hdr); eassumption.
+  - intros id _ s s' i _ H. discriminate.
+  - intros _ s s' i _ H. discriminate.
+  - intros id _ s s' i Hz H. cbn in H. inversion H; subst. exact Hz.
+  - intros b Hb Hd s s' i _ H. cbn in *. eapply Hb; eassumption.
+  - intros b Hb hc c Hc hf f Hf Hd s s' i _ H. cbn [defer_ok_f] in Hd.
+    apply andb_true_iff in Hd as (Hd & Hdf). apply andb_true_iff in Hd as (Hdb & Hdc).
+    cbn [eval_form] in H.
+    destruct (eval_chunk None b s) as [s1 e1] eqn:Eb.
+    assert (H2 : forall s2 j, (match e1 with
+                              | Some _ => if hc then eval_chunk None c s1 else (s1, e1)
+                              | None => (s1, e1) end) = (s2, Some (XFail j)) -> cz s2 = false).
+    { intros s2 j E2. destruct e1 as [x|]; [|discriminate].
+      destruct hc; [eapply (Hc Hdc); exact E2|]. inversion E2; subst. eapply (Hb Hdb); exact Eb. }
+    destruct (match e1 with Some _ => if hc then eval_chunk None c s1 else (s1, e1) | None => (s1, e1) end)
+      as [s2 e2].
+    destruct hf.
+    + destruct (eval_chunk None f s2) as [s3 [x3|]] eqn:Ef; cbn in H; inversion H; subst.
+      * eapply (Hf Hdf); exact Ef.
+      * apply chunk_none_not_cancelled in Ef. now rewrite cz_none in Ef.
+    + inversion H; subst. eapply H2; reflexivity.
+  - intros k b Hb Hd s s' i _ H. cbn in Hd. cbn [eval_form] in H.
+    eapply each_loop_fail; [|exact H]. intros; eapply (Hb Hd); eassumption.
+  - (* the closure with defer: either the deferred call cannot cancel, or the body cannot fail *)
+    intros d Hd r Hr Hok s s' i _ H. cbn [defer_ok_f] in Hok.
+    apply andb_true_iff in Hok as (Hok & Hokr). apply andb_true_iff in Hok as (Hshape & Hokd).
+    cbn [eval_form] in H. destruct (is_cancelled None (tickclk s)); [discriminate|].
+    destruct (eval_chunk None r _) as [s1 e1] eqn:Er.
+    destruct (eval_chunk None d s1) as [s2 e2] eqn:Ed.
+    inversion H; subst. destruct e1 as [[|j]|]; cbn in H2; try discriminate.
+    + inversion H2; subst.
+      apply orb_true_iff in Hshape as [Hs|Hs]; apply negb_true_iff in Hs.
+      * rewrite (proj1 no_cancel_keeps_flag d Hs _ _ _ Ed). eapply (Hr Hokr); exact Er.
+      * exfalso. eapply (proj1 no_fail_no_fail_exception r Hs); exact Er.
+    + subst e2. eapply (Hd Hokd); exact Ed.
+  - intros k b Hb Hd s s' i _ H. cbn in Hd. cbn [eval_form] in H.
+    eapply each_loop_fail; [|exact H]. intros; eapply (Hb Hd); eassumption.
+Qed.
+
+(* the interrupt is what is returned, for every program that has no closure whose
+   deferred call can cancel while its body can fail *)
+Theorem interrupted_exception_sync_ok c s s' e :
+  defer_ok c = true ->
+  eval_chunk None c s = (s', e) -> cz s' = true -> e = Some XInt.
+Proof.
+  intros Hd H Hz. destruct e as [[|i]|].
+  - reflexivity.
+  - rewrite (proj1 fail_means_not_cancelled_ok c Hd s s' i H) in Hz. discriminate.
+  - apply chunk_none_not_cancelled in H. rewrite cz_none in H. congruence.
+Qed.
+
+(* the witness of the refutation is exactly of the excluded shape *)
+Lemma w_defer_not_ok : defer_ok w_defer = false.
+Proof. reflexivity. Qed.
